@@ -744,13 +744,42 @@ def sort(a, axis=-1):
     return A[argsort(A)]
 
 
-def unique(a):
-    A = sort(a)
+def unique(a, return_index=False, return_inverse=False, return_counts=False, **k):
+    if return_inverse or return_counts or k:
+        raise NotEncodable("unique(return_inverse / return_counts / axis)")
+    A = wrap(a)
+    if A.ndim != 1:
+        raise NotEncodable("unique of a %d-d array" % A.ndim)
+    if len(A) == 0:
+        return (A, _np.array([], dtype=int)) if return_index else A
+    order = argsort(A)              # stable: among equal values the first occurrence comes first
     keep = [0]
-    for i in range(1, len(A)):
-        if _b.bool(A[i] != A[keep[-1]]):
+    for i in range(1, len(order)):
+        if _b.bool(A[order[i]] != A[order[keep[-1]]]):
             keep.append(i)
-    return A[keep]
+    first = _np.array([order[i] for i in keep], dtype=int)
+    return (A[first], first) if return_index else A[first]
+
+
+def searchsorted(a, v, side="left", sorter=None):
+    """insertion index into the ascending 1-d array a: the number of elements < v (left) or <= v (right);
+    every comparison may fork"""
+    if sorter is not None:
+        raise NotEncodable("searchsorted(sorter)")
+    A = _plain(a)
+    if A.ndim != 1 or side not in ("left", "right"):
+        raise NotEncodable("searchsorted arguments")
+
+    def one(x):
+        x = _conv_scalar(x)
+        n = 0
+        for e in A:
+            if _b.bool((e < x) if side == "left" else (e <= x)):
+                n += 1
+        return n
+    if isinstance(v, (_np.ndarray, list, tuple)):
+        return _np.array([one(x) for x in _plain(v).reshape(-1)], dtype=int).reshape(_np.shape(v))
+    return one(v)
 
 
 # value-only selections: If-terms, no forking (state merging)
